@@ -222,12 +222,18 @@ func ParseReport(text string) (*Report, error) {
 	if !ok || len(enc) != 1 {
 		return nil, fmt.Errorf("doc:encodes is not a one-element array")
 	}
-	node := enc[0].(map[string]any)
+	node, ok := enc[0].(map[string]any)
+	if !ok {
+		return nil, fmt.Errorf("the node under doc:encodes is not an object")
+	}
 	rep := &Report{Node: node, Doc: doc[0]}
 	rep.Conforms, _ = node["conforms"].(bool)
 	if rs, ok := node["result"].([]any); ok {
-		for _, r := range rs {
-			m := r.(map[string]any)
+		for i, r := range rs {
+			m, ok := r.(map[string]any)
+			if !ok {
+				return nil, fmt.Errorf("result[%d] is not a result node but %v", i, r)
+			}
 			res := RResult{Raw: m}
 			res.Severity, _ = m["resultSeverity"].(string)
 			res.Name, _ = m["sourceShapeName"].(string)
